@@ -21,7 +21,7 @@ def main(tier):
                           ORACLES, salt="ck"))
     # crash sweep at call granularity for fixed scenarios
     prof = {"max_msgs": 3, "p_term_restart": 0.0, "max_rcpts": 4, "dup_rcpt": 0.3}
-    for idx in ([5] if quick else [5, 11, 17, 23]):
+    for idx in histrun.pick_scenarios(PROP, b, "sw", prof, 1 if quick else 4):
         calls, h = histrun.reference_calls(PROP, b, idx, "sw", prof)
         plans = histrun.crash_plans(calls, every=2 if quick else 1)
         res.merge(histrun.run_sweep(PROP, b, idx, "sw", prof, ORACLES, plans))
